@@ -85,6 +85,7 @@ def step (st : Option Ctx) (toks : List String) : Option Ctx × String :=
       | ["end"] => nav .endTok tokOrNull
       | ["closing"] => nav .closing (fun _ r => toString r)
       | ["closingtok"] => nav .closingTok tokOrNull
+      | ["printtok", e] => nav (.printTok (e != "0")) tokOrNull
       | ["next", m] => if c.hasError then (st, "skip") else nav (.next (maskOf m)) (fun _ r => toString r)
       | _ => (st, "bad-op")
 
